@@ -118,36 +118,42 @@ def primClears (f : Facts) : Mode → Bool
   | .parse => f.primParsePostClearsCatch
   | .validate => f.primValPostClearsCatch
 
-def prim (env : Env) (f : Facts) (m : Mode) (p : Prim) (fl0 : Flags) (path : List String)
+/-- is the primitive node's value absent? (Parse: nil / blank string; Validate: Go zero value) -/
+def primAbsent (m : Mode) (v : Val) (d : DVal) : Bool :=
+  match m with
+  | .parse => isParseZero v
+  | .validate => isZeroD d
+
+/-- the primitive pipeline up to (not including) the deferred PostTransform block -/
+def primBody (env : Env) (m : Mode) (p : Prim) (fl0 : Flags) (path : List String)
     (v : Val) (d : DVal) (st : St) : Out :=
   let fl : Flags := { fl0 with canCatch := p.ctch.isSome }
   let ps := render path
   let dt := p.kind.dtype
-  let absent := match m with
-    | .parse => isParseZero v
-    | .validate => isZeroD d
-  let body : Out :=
-    if absent then
-      match p.dflt with
-      | some x => testLoop env dt ps p.ctch p.tests x fl st
+  if primAbsent m v d then
+    match p.dflt with
+    | some x => testLoop env dt ps p.ctch p.tests x fl st
+    | none =>
+      match p.required with
+      | none => (fl, d, st)
+      | some r =>
+        match p.ctch with
+        | some c => (fl, c, st)
+        | none => let a := addIssue fl st (issueOfTest env ps dt r); (a.1, d, a.2)
+  else
+    match m with
+    | .validate => testLoop env dt ps p.ctch p.tests d fl st
+    | .parse =>
+      match p.coerce v with
       | none =>
-        match p.required with
-        | none => (fl, d, st)
-        | some r =>
-          match p.ctch with
-          | some c => (fl, c, st)
-          | none => let a := addIssue fl st (issueOfTest env ps dt r); (a.1, d, a.2)
-    else
-      match m with
-      | .validate => testLoop env dt ps p.ctch p.tests d fl st
-      | .parse =>
-        match p.coerce v with
-        | none =>
-          match p.ctch with
-          | some c => (fl, c, st)
-          | none => let a := addIssue fl st (coerceIssue env ps dt); (a.1, d, a.2)
-        | some x => testLoop env dt ps p.ctch p.tests x fl st
-  runPosts env (primClears f m) dt ps p.posts body
+        match p.ctch with
+        | some c => (fl, c, st)
+        | none => let a := addIssue fl st (coerceIssue env ps dt); (a.1, d, a.2)
+      | some x => testLoop env dt ps p.ctch p.tests x fl st
+
+def prim (env : Env) (f : Facts) (m : Mode) (p : Prim) (fl0 : Flags) (path : List String)
+    (v : Val) (d : DVal) (st : St) : Out :=
+  runPosts env (primClears f m) p.kind.dtype (render path) p.posts (primBody env m p fl0 path v d st)
 
 def resetSlice (f : Facts) (m : Mode) (fl : Flags) : Flags :=
   match m with
